@@ -38,16 +38,16 @@ PROPS = {
             dict(unit="c15_typesdaemon", test="TestVerifC15DaemonConfig", quick=16000, thorough=1000000),
             dict(unit="c15_types", test="TestVerifC15IPHelpers", quick=16000, thorough=2000000),
             dict(unit="c15_plugin", test="TestVerifC15CNIPlugin", quick=12000, thorough=1000000),
-            dict(unit="c15_cli", test="TestVerifC15TerwayCLI", quick=6000, thorough=300000),
+            dict(unit="c15_cli", test="TestVerifC15TerwayCLI", quick=6000, thorough=80000),
             dict(unit="c15_eni", test="TestVerifC15KnownWitnessRecordNilPodInfo", quick=1, thorough=1, shards=1),
-            dict(unit="c15_eni", test="TestVerifC15LocalLoad", quick=12000, thorough=500000),
+            dict(unit="c15_eni", test="TestVerifC15LocalLoad", quick=12000, thorough=400000),
             dict(unit="c15_daemon", test="TestVerifC15PoolConfig", quick=8000, thorough=1000000),
-            dict(unit="c15_daemon", test="TestVerifC15StoredRecords", quick=8000, thorough=300000),
+            dict(unit="c15_daemon", test="TestVerifC15StoredRecords", quick=8000, thorough=200000),
             dict(unit="c15_daemon", test="TestVerifC15KnownWitnessStoredRecords", quick=1, thorough=1, shards=1),
             # one fresh network namespace per case (slow, serialised in the kernel): few cases
             dict(unit="c15_daemon", test="TestVerifC15RuleSync", quick=640, thorough=8000),
-            dict(unit="c15_webhook", test="TestVerifC15Webhook", quick=8000, thorough=300000),
-            dict(unit="c15_podctl", test="TestVerifC15PodController", quick=8000, thorough=400000),
+            dict(unit="c15_webhook", test="TestVerifC15Webhook", quick=8000, thorough=200000),
+            dict(unit="c15_podctl", test="TestVerifC15PodController", quick=8000, thorough=300000),
         ],
     ),
 }
